@@ -296,6 +296,9 @@ func astr(a []resolver.Address) string {
 		if x.Metadata != nil {
 			e += fmt.Sprintf("|md=%v", x.Metadata)
 		}
+		if x.Type != 0 {
+			e += fmt.Sprintf("|type=%d", x.Type)
+		}
 		s = append(s, e)
 	}
 	return strings.Join(s, ",")
@@ -363,7 +366,9 @@ func (c *fcc) Target() string                        { return "fake" }
 var addrSets = [][]resolver.Address{{{Addr: "A"}}, {{Addr: "B1"}, {Addr: "B2"}}, {{Addr: "C"}}, nil,
 	// the same backend as list 0, differing only in what else a resolver attaches to an address
 	{{Addr: "A", Attributes: attributes.New("zone", "z1")}}, {{Addr: "A", Attributes: attributes.New("zone", "z2")}},
-	{{Addr: "A", ServerName: "a.example.com"}}, {{Addr: "A", BalancerAttributes: attributes.New("weight", 3)}}, {{Addr: "B1"}, {Addr: "B2", Metadata: "m"}}}
+	{{Addr: "A", ServerName: "a.example.com"}}, {{Addr: "A", BalancerAttributes: attributes.New("weight", 3)}}, {{Addr: "B1"}, {Addr: "B2", Metadata: "m"}},
+	// addresses of the (deprecated) other kind: whatever the resolver hands over is what the connections get
+	{{Addr: "A"}, {Addr: "LB", Type: resolver.GRPCLB}}, {{Addr: "LB2", Type: resolver.GRPCLB}}}
 
 func addrIdx(i int) int { return ((i % len(addrSets)) + len(addrSets)) % len(addrSets) }
 
